@@ -529,7 +529,11 @@ func runC15(c *harness.Ctx) {
 		return
 	}
 	// ---- history
-	nSteps := 1 + t.Draw("nsteps", 6)
+	maxSteps := 6
+	if c.Tier == "thorough" {
+		maxSteps = 10
+	}
+	nSteps := 1 + t.Draw("nsteps", maxSteps)
 	for i := 0; i < nSteps && !c.S.Violated(); i++ {
 		switch t.Draw("step", 8) {
 		case 0, 1, 2, 3:
